@@ -64,6 +64,12 @@ def gen_specs(run):
             x = copy.deepcopy(base)
             x["ctx"] = {"label": "other-ctx"}
             variants.append(("context", x))
+            if seeded:
+                # another recovery seed: witness, commitment, context and external bytes are the same, the seed-derived nonces (hence A, every L and R — the
+                # transcript from A on) are not; r and s are drawn after all of those were absorbed
+                x = copy.deepcopy(base)
+                x["seed"] = gen.hx(gen.rscalar(rng))
+                variants.append(("recovery seed", x))
             x = copy.deepcopy(base)
             x["promises"][j] = "0" if False else None
             # statement: change another public input: a blinding of some commitment (different commitment)
